@@ -1499,7 +1499,7 @@ func (s *sharedEntryAttributes) AddCacheUpdateRecursive(ctx context.Context, c *
 	var exists bool
 	// if child does not exist, create Entry
 	if e, exists = s.childs.GetEntry(c.GetPath()[idx]); !exists {
-		verifhook.Yield("tree.child.miss", strings.Join(c.GetPath()[:idx+1], "/"))
+		verifhook.Yield("tree.child.miss", c.GetPath()[idx])
 		e, err = newEntry(ctx, s, c.GetPath()[idx], s.treeContext)
 		if err != nil {
 			return nil, err
